@@ -24,6 +24,7 @@ type UniGen struct {
 	starters   []rune            // sample of inert starters (letters, digits, symbols)
 	letters    []rune            // inert letters (category L*)
 	spaceLike  []rune            // code points whose NFKD is exactly U+0020
+	spaceMark  []rune            // code points whose NFKD is U+0020 followed by combining marks
 	preimage   map[string][]rune // NFKD image -> single code points that decompose to it
 	maxImage   int               // longest image in bytes
 	hangulSyll []rune
@@ -53,6 +54,10 @@ func (e *Env) Gen() *UniGen {
 				}
 				if d == " " {
 					g.spaceLike = append(g.spaceLike, cp)
+				}
+				if strings.HasPrefix(d, " ") && len(d) > 1 {
+					// spacing forms of marks (U+00A8, U+00B4, U+309B, ...): NFKD is a space followed by marks
+					g.spaceMark = append(g.spaceMark, cp)
 				}
 				if cp >= 0xAC00 && cp <= 0xD7A3 {
 					g.hangulSyll = append(g.hangulSyll, cp)
